@@ -72,6 +72,9 @@ func runC13(e *Engine, r *Report, tier string) {
 	r.Rule("R6", "unbond proceeds only when no unbonding delegation exists", 1, "")
 	r.Rule("R7", "governance removal unbonds every removed oracle", 1, "")
 	r.Rule("R8", "every transition to Online = true sets StartHeight to the current block height on every path", 2, "stores of Oracle.Online = true")
+	r.Rule("R9", "coins leave an oracle's delegate account for another account only in the unbond routine (stake minus penalty, record deleted) or while the oracle is Online (its stake is delegated, the balance is rewards)", 2, "account-to-account transfers out of GetDelegateAddress()")
+
+	e.c13DelegateAccountPayouts(r)
 
 	// classify msg handlers by their direct calls
 	type hinfo struct {
@@ -933,6 +936,58 @@ func runC13(e *Engine, r *Report, tier string) {
 	}
 	if non == 0 {
 		r.Fail("R8", "online transitions", "", "UNRESOLVED-ANCHOR: no store of Online = true found")
+	}
+}
+
+// c13DelegateAccountPayouts (R9): after governance removes an oracle its stake is undelegated and, once matured, lies on the
+// delegate account as plain balance. The only way out of that account must be the unbond routine, which deducts the penalty
+// and deletes the record; the reward withdrawal sweeps the whole balance and is therefore allowed only while the oracle is
+// Online (round-7 seed C13 replaced that test by "still has a delegation", which dust shares satisfy).
+func (e *Engine) c13DelegateAccountPayouts(r *Report) {
+	n := 0
+	for _, fn := range e.Funcs {
+		if isAuxPkg(fnPkgPath(fn)) || !strings.Contains(fnPkgPath(fn), "/x/crosschain") || isGenesisOrUpgrade(fn) {
+			continue
+		}
+		allCalls(fn, func(c ssa.CallInstruction) {
+			if callName(c) != "SendCoins" {
+				return
+			}
+			args := callArgs(c)
+			if len(args) < 5 {
+				return
+			}
+			fromDelegate := false
+			e.Slice(args[2], SliceOpts{MaxDepth: 10, ConstLeafOK: true}, func(v ssa.Value) Verdict {
+				if cc, ok := v.(*ssa.Call); ok && callName(cc) == "GetDelegateAddress" {
+					fromDelegate = true
+					return Accept
+				}
+				return Continue
+			})
+			if !fromDelegate {
+				return
+			}
+			n++
+			ck := e.FnKey(fn) + " pay-out from the delegate account"
+			if e.HasTransEffect(rootFn(fn), "crosschain", "12", "delete") {
+				r.Ok("R9", ck, e.InstrPos(c), "inside the unbond routine (deletes the oracle record)")
+				return
+			}
+			online := false
+			for _, g := range GuardsOf(c) {
+				ci, ok := NormCond(g)
+				if ok && ci.Op == "true" {
+					if nm, _, ok := fieldNameOfLoad(ci.X); ok && nm == "Online" {
+						online = BranchFailsClean(g.If, !g.Pol, func(i ssa.Instruction) bool { return e.EffectOf(i) != "" })
+					}
+				}
+			}
+			r.Check(online, "R9", ck, e.InstrPos(c), "dominated by oracle.Online (offline -> error, no effect)", "the whole balance of an oracle's delegate account is paid out without requiring the oracle to be Online: once governance removed the oracle and its undelegated stake has matured, this path hands out the stake without the slashing penalty, and the unbond routine then fails forever")
+		})
+	}
+	if n == 0 {
+		r.Fail("R9", "delegate-account pay-outs", "", "UNRESOLVED-ANCHOR: no account-to-account transfer out of GetDelegateAddress() found")
 	}
 }
 
